@@ -961,7 +961,7 @@ class CiderNumInt(CiderNumIntMixin, numint.NumInt):
 class _FLNumIntMixin:
 
     feat_plan = None
-    settings: FeatureSettings = None
+    settings: FeatureSettings
 
     nr_rks = nr_rks
     nr_uks = nr_uks
